@@ -318,6 +318,20 @@ def run_class(case, r):
                             pass
                     if name == 'logistics_equation' and kw.get('direct') and fac == 0.0 and not np.all(np.isfinite(np.asarray(out))):
                         mech = 'logistics_equation:direct-solver-divides-by-factor'
+                    if name == 'boussinesq_2d_imex' and meth == 'solve_system':
+                        # restarted GMRES stagnates for large factors and the class ignores the solver's info flag
+                        try:
+                            import warnings
+
+                            from scipy.sparse.linalg import gmres
+
+                            with warnings.catch_warnings():
+                                warnings.simplefilter('ignore')
+                                _, info = gmres(P.Id - fac * P.M, np.asarray(rhs).flatten(), x0=np.asarray(guess).flatten(), rtol=P.gmres_tol_limit, restart=P.gmres_restart, maxiter=P.gmres_maxiter, atol=0)
+                            if info > 0:
+                                mech = 'boussinesq_2d_imex:gmres-non-convergence-ignored'
+                        except Exception:  # noqa
+                            pass
                     if name == 'allencahn_front_semiimplicit' and res.size > 4 and float(np.max(np.abs(res[1:-1]))) <= 0.05 * nr:
                         mech = 'allencahn_front_semiimplicit:solve-ignores-dirichlet-boundary-values'
                 r.check(np.all(np.isfinite(np.asarray(out))) and nr <= bound, 'implicit-solve-residual', mech=mech, msg= f'{tag}: {meth}(factor={fac:g}, t={t:.3g}): |u - factor*f_{piece}(u) - rhs| = {nr:.3e} > {bound:.1e} (tolerance {tol:.1e})', factor=fac)
